@@ -176,6 +176,10 @@ pub fn run(ctx: &Ctx) -> i32 {
     let max_depth = 6;
     let keys_ref = &keys;
     let protected_attempts = ctx.thorough();
+    // the state space closes after a few hundred (thorough: a few thousand) states when signing leaves no trace of earlier
+    // signatures; a search that passes this bound is stopped and reported instead of exhausting the machine
+    let state_cap: u64 = if ctx.thorough() { 400_000 } else { 40_000 };
+    vlib::bfs::MAX_STATES.with(|c| c.set(state_cap));
     let (stats, accs) = bfs(
         inits,
         max_depth,
@@ -356,6 +360,11 @@ pub fn run(ctx: &Ctx) -> i32 {
         Acc::new,
     );
     let acc = merge(accs);
+    // a search that was stopped at the bound decides nothing by itself: whatever invariant violations it found on the way are
+    // reported; if it found none, the harness's assumption (equal histories give equal bytes) no longer holds and it says so
+    if stats.capped && acc.viols.is_empty() {
+        crate::ctx::machinery(&format!("the state space does not close: more than {} distinct package states after {} operations and no invariant violation among them — equal histories no longer give equal bytes, the search cannot decide", state_cap, stats.depth_reached + 1));
+    }
     let n_states = stats.states;
     let s = SubReport::new(
         "histories",
